@@ -75,7 +75,12 @@ def parseResp (s : String) : Option Resp :=
 def ev (s : S) (e : Ev) : S × Out :=
   ({ s with st := apply s.st e, evs := s.evs ++ [e] },
    { model := "ok", tag := match e with
-      | .seed => "ev:seed" | .disable => "ev:disable" | .enable => "ev:enable" | .hs _ _ _ => "ev:hs" })
+      | .seed => "ev:seed" | .disable => "ev:disable" | .enable => "ev:enable" | .hs _ _ _ => "ev:hs"
+      | .drop _ => "ev:drop"
+      | .renew n _ =>
+        match Spec.Dns.selfAfter s.self s.evs with
+        | some (n0, _) => if lower n0 == lower n then "ev:renew-same-name" else "ev:renew-rename"
+        | none => "ev:renew-first-cert" })
 
 def step (s : S) (args : List String) (impl : String) : S × Out :=
   match args with
@@ -88,6 +93,14 @@ def step (s : S) (args : List String) (impl : String) : S × Out :=
   | ["seed"] => ev s .seed
   | ["disable"] => ev s .disable
   | ["enable"] => ev s .enable
+  | ["renew", name, addrs] =>
+    match strArg name, addrsArg addrs with
+    | some n, some as => ev s (.renew n as)
+    | _, _ => (s, badOp)
+  | ["drop", k] =>
+    match k.toNat? with
+    | some k => ev s (.drop k)
+    | none => (s, badOp)
   | ["hs", k, name, addrs] =>
     match k.toNat?, strArg name, addrsArg addrs with
     | some k, some n, some as => ev s (.hs k n as)
@@ -106,7 +119,8 @@ def step (s : S) (args : List String) (impl : String) : S × Out :=
           | none => "ok"
       let qs1 := qs.take 1
       let anyKnown := qs1.any (fun q => Spec.Dns.known s.self s.evs q.name)
-      let loc := Spec.Dns.isLocal s.self cl
+      let loc := Spec.Dns.isLocal (Spec.Dns.selfAfter s.self s.evs) cl
+      let former := qs1.any (fun q => (Spec.Dns.formerOwnNames s.self s.evs).contains (lower q.name))
       let hasTxt := qs1.any (fun q => q.qtype == typeTXT)
       let hasOther := qs1.any (fun q => q.qtype != typeTXT && q.qtype != typeA && q.qtype != typeAAAA)
       let tag :=
@@ -116,7 +130,7 @@ def step (s : S) (args : List String) (impl : String) : S × Out :=
           (if r.answers.any (fun a => match a with | .txt _ _ => true | _ => false) then "q:answer-txt" else
             (if qs.length > 1 then "q:answer-addr-multi-question" else "q:answer-addr"))
         else if r.rcode == rcodeNameError then
-          (if hasTxt then "q:nxdomain-txt" else if s.evs.isEmpty then "triv:q:nxdomain-empty-history" else "q:nxdomain")
+          (if former then "q:nxdomain-former-own-name" else if hasTxt then "q:nxdomain-txt" else if s.evs.isEmpty then "triv:q:nxdomain-empty-history" else "q:nxdomain")
         else if hasTxt && !loc then "q:txt-remote-refused"
         else if anyKnown then (if hasOther then "q:nodata-other-type" else if hasTxt then "q:nodata-txt" else "q:nodata-addr")
         else "q:noerror-empty"
